@@ -42,6 +42,7 @@ class World:
         self.eso = None
         self.svprop = None
         self.popprop = None
+        self.rates = None
         self.psi = None
 
     # ---- observable inputs ----------------------------------------------
@@ -74,6 +75,8 @@ class World:
             "manager.basis_stack": list(m.basis_stack),
             "manager.units": dict(m.current_units),
         }
+        if getattr(self, "rates", None) is not None:
+            snap["rate_matrix.data"] = numpy.array(self.rates.data, copy=True)
         for name, (prop, settings) in self.props.items():
             rt = prop.RelaxationTensor if hasattr(prop, "RelaxationTensor") else None
             if rt is not None and not getattr(rt, "as_operators", False) and hasattr(rt, "_data"):
@@ -101,8 +104,8 @@ class World:
         """Create (outside any context) the cached object the call `op` works on."""
         qr = self.qr
         name = op[0]
-        if name == "propagate":
-            _, theory, td, rho, nref = op
+        if name in ("propagate", "read"):
+            theory, td = op[1], op[2]
             key = "%s/%s" % (theory, td)
             if key not in self.props:
                 kw = {}
@@ -122,19 +125,22 @@ class World:
                 v[1] = 0.8
                 v[2] = 0.6j
                 self.psi = qr.qm.StateVector(data=v)
-        elif name == "pop":
+        elif name in ("pop", "pop_matrix"):
             if self.popprop is None:
                 from quantarhei.qm.propagators.poppropagator import PopulationPropagator
-                rr = self.agg.get_RedfieldRateMatrix()
-                self.popprop = PopulationPropagator(self.ta, rr)
-        elif name == "heom":
+                # the propagator is given the rate matrix as an array (the form both
+                # propagate() and get_PropagationMatrix() accept); the array stays the
+                # caller's object and is read again by every later call
+                self.rates = self.agg.get_RedfieldRateMatrix()
+                self.popprop = PopulationPropagator(self.ta, self.rates.data)
+        elif name in ("heom", "heom_free"):
             if self.hprop is None:
                 self.hprop = self.agg.get_KTHierarchyPropagator(depth=self.cfg["hdepth"])
 
     def call(self, op):
         qr = self.qr
         name = op[0]
-        self.ensure(op) if name != "in" else None
+        self.ensure(op) if name not in ("in", "in2") else None
         if name == "in":
             # the same call made inside an ambient context of the caller
             _, ctx, inner = op
@@ -149,6 +155,26 @@ class World:
                 with qr.eigenbasis_of(self.ham):
                     return self.call(list(inner))
             raise isolation.HarnessError(ctx)
+        if name == "in2":
+            # two calls made inside ONE ambient context: the result of the second one is
+            # compared with the same call made alone in such a context on fresh objects
+            _, ctx, first, second = op
+            self.ensure(list(first))
+            self.ensure(list(second))
+            cm = qr.energy_units("1/cm") if ctx == "units" else qr.eigenbasis_of(self.ham)
+            with cm:
+                self.call(list(first))
+                return self.call(list(second))
+        if name == "read":
+            # a pure READ of the input objects a propagator works on (tensor and Hamiltonian in
+            # the representation of the current context); reading is not an input
+            _, theory, td = op
+            p, settings = self.props["%s/%s" % (theory, td)]
+            out = {"ham": numpy.array(p.Hamiltonian.data, copy=True)}
+            rt = p.RelaxationTensor
+            if not getattr(rt, "as_operators", False):
+                out["tensor"] = numpy.array(rt.data, copy=True)
+            return out
         if name == "refill":
             # the USER overwrites the content of an initial-state object (same object identity)
             _, rho, which = op
@@ -208,8 +234,11 @@ class World:
         if name == "pop":
             if self.popprop is None:
                 from quantarhei.qm.propagators.poppropagator import PopulationPropagator
-                rr = self.agg.get_RedfieldRateMatrix()
-                self.popprop = PopulationPropagator(self.ta, rr)
+                # the propagator is given the rate matrix as an array (the form both
+                # propagate() and get_PropagationMatrix() accept); the array stays the
+                # caller's object and is read again by every later call
+                self.rates = self.agg.get_RedfieldRateMatrix()
+                self.popprop = PopulationPropagator(self.ta, self.rates.data)
             p0 = numpy.zeros(self.ham.dim)
             p0[self.ham.dim - 1] = 1.0
             return {"pops": numpy.array(self.popprop.propagate(p0), copy=True)}
@@ -219,6 +248,31 @@ class World:
                 self.hprop = self.agg.get_KTHierarchyPropagator(depth=self.cfg["hdepth"])
             ev = self.hprop.propagate(self.rho[rho])
             return {"evolution": numpy.array(ev.data, copy=True)}
+        if name == "heom_free":
+            # rarely used option: propagation of the hierarchy alone (kernel construction)
+            _, rho = op
+            if self.hprop is None:
+                self.hprop = self.agg.get_KTHierarchyPropagator(depth=self.cfg["hdepth"])
+            ev = self.hprop.propagate(self.rho[rho], free_hierarchy=True)
+            return {"evolution": numpy.array(ev.data, copy=True)}
+        if name == "pop_matrix":
+            # propagation matrix on a coarser axis, with perturbative corrections requested
+            _, corr = op
+            if self.popprop is None:
+                from quantarhei.qm.propagators.poppropagator import PopulationPropagator
+                # the propagator is given the rate matrix as an array (the form both
+                # propagate() and get_PropagationMatrix() accept); the array stays the
+                # caller's object and is read again by every later call
+                self.rates = self.agg.get_RedfieldRateMatrix()
+                self.popprop = PopulationPropagator(self.ta, self.rates.data)
+            t2 = qr.TimeAxis(0.0, 4, self.ta.step * 5)
+            out = self.popprop.get_PropagationMatrix(t2, corrections=corr)
+            if isinstance(out, tuple):
+                res = {"U": numpy.array(out[0], copy=True)}
+                for i, c in enumerate(out[1]):
+                    res["corr%d" % i] = numpy.array(c, copy=True)
+                return res
+            return {"U": numpy.array(out, copy=True)}
         if name == "eso":
             _, mode = op
             RR, hh = self.agg.get_RelaxationTensor(self.ta, relaxation_theory="standard_Redfield")
@@ -261,7 +315,8 @@ def menu(tier):
            ["propagate", "combined_RedfieldFoerster", False, "rho0", 1],
            ["propagate_free", "rho0"],
            ["sv"], ["pop"],
-           ["heom", "rho0"], ["heom", "rho1"],
+           ["heom", "rho0"], ["heom", "rho1"], ["heom_free", "rho0"],
+           ["pop_matrix", -1], ["pop_matrix", 2],
            ["eso", "all"],
            ["rates", "redfield"], ["rates", "foerster"],
            ["abs"], ["dm", "thermal"], ["dm", "impulsive_excitation"]]
@@ -282,6 +337,17 @@ def menu(tier):
     for c in ("units", "basis"):
         for o in ctxable:
             ops.append(["in", c, o])
+    # reads of the inputs between calls, outside and (together with the call) inside a context
+    THE = [("standard_Redfield", False), ("standard_Redfield", True)]
+    if tier == "thorough":
+        THE += [("standard_Foerster", False), ("combined_RedfieldFoerster", False)]
+    for theory, td in THE:
+        ops.append(["read", theory, td])
+        for c in ("units", "basis"):
+            ops.append(["in2", c, ["read", theory, td],
+                        ["propagate", theory, td, "rho0", 1]])
+            ops.append(["in2", c, ["propagate", theory, td, "rho0", 1],
+                        ["propagate", theory, td, "rho0", 1]])
     if tier == "thorough":
         ops += [["propagate", "standard_Redfield", False, "rho0", 2],
                 ["tensor", "standard_Foerster", True, False],
@@ -297,10 +363,14 @@ CFGS = {"quick": {"nsites": 2, "nt": 40, "dt": 2.0, "hdepth": 2},
 def _name(op):
     if op[0] == "in":
         return "in-%s(%s)" % (op[1], _name(op[2]))
+    if op[0] == "in2":
+        return "in-%s(%s;%s)" % (op[1], _name(op[2]), _name(op[3]))
     return "/".join(str(x) for x in op)
 
 
 def _kind(op):
+    if op[0] == "in2":
+        return "in-%s:%s-then-%s" % (op[1], op[2][0], op[3][0])
     return ("in-%s:" % op[1] + op[2][0]) if op[0] == "in" else op[0]
 
 
@@ -362,6 +432,8 @@ def execute(hist):
                 if prev[0] == "refill":
                     tw.call(list(prev))
             twop = list(op)
+            if twop[0] == "in2":      # the second call alone in such a context
+                twop = ["in", twop[1], twop[3]]
             inner = twop[2] if twop[0] == "in" else twop
             if inner[0] == "propagate" and res is not None and \
                     res.get("_settings", {}).get("Nref", 1) > 1:
@@ -440,7 +512,8 @@ def run(run):
                     ["propagate", "standard_Redfield", False, "rho0", 1],
                     ["propagate", "standard_Foerster", False, "rho0", 1],
                     ["refill", "rho0", 1], ["refill", "rho0", 2], ["refill", "rho1", 2],
-                    ["eso", "all"], ["heom", "rho0"]]
+                    ["eso", "all"], ["heom", "rho0"], ["heom_free", "rho0"],
+                    ["pop"], ["pop_matrix", 2]]
     run_bfs(run, execute, depth + 1, cap_s=25 if run.tier == "quick" else 240,
             section="refill-focus")
     execute.menu = full
